@@ -24,10 +24,10 @@ FINDING_TYPES = {
     "VPf32": "oracle:null-scalar-ptr-in-container",
     "RPf64": "oracle:null-scalar-ptr-in-container",
 }
-# candidate finding (patches/C11-nullable-ptr-trivial-size.diff): unique_ptr / shared_ptr inherit TRIVIAL size complexity,
-# so vector / T[N] / TRIVIAL aggregates take n * size(value[0]) although a null pointer has size 0.  The trigger (null and
-# non-null elements mixed) is generated only once the key is recorded in known_findings.txt or the source is repaired
-# (Gen.ptrInheritsTrivial = false), so that the check stays green until the lead has decided.
+# fixed 0635990 (patches/C11-nullable-ptr-trivial-size.diff): unique_ptr / shared_ptr inherited TRIVIAL size complexity, so
+# vector / T[N] / TRIVIAL aggregates took n * size(value[0]) although a null pointer has size 0.  The trigger (null and
+# non-null elements mixed) is generated whenever the source has the repaired trait expression (Gen.ptrInheritsTrivial =
+# false, pinned by gen_trait_exprs) or the key is recorded in known_findings.txt.
 CANDIDATE_KEY = "oracle:nullable-ptr-trivial-size"
 CANDIDATE_TYPES = ("VPf32", "VPA5", "VQA5", "VPT", "RPf64")
 
